@@ -6,6 +6,7 @@ import (
 	"context"
 	"errors"
 	"fmt"
+	"io"
 	"net"
 	"os"
 	"strings"
@@ -33,7 +34,7 @@ type Step struct {
 	Gate       bool   `json:"gate,omitempty"`         // call: parking handler
 	Note       bool   `json:"note,omitempty"`         // call: sent as a notification
 	Batch      []Step `json:"batch,omitempty"`        // batch: the members (call steps) of one array
-	Err        string `json:"err,omitempty"`          // acceptfail: netclosed chanclosed other
+	Err        string `json:"err,omitempty"`          // acceptfail: netclosed chanclosed other timeout eof wrapeof
 	Burst      bool   `json:"burst,omitempty"`
 	D          int    `json:"d,omitempty"` // cancel: fake nanoseconds to wait first (lands between two hook sites of a starting connection)
 }
@@ -91,9 +92,11 @@ type event struct {
 	flag   string
 	err    string
 	sameAs bool
+	inRecv int // finish: server-side connections with a Recv in progress at that moment
 }
 
 var errOther = errors.New("accepter exploded")
+var errWrapEOF = fmt.Errorf("no more connections: %w", io.EOF)
 
 // errTimeout is a net.Error whose Timeout method reports true.
 var errTimeout error = &net.OpError{Op: "accept", Net: "mem", Err: os.ErrDeadlineExceeded}
@@ -127,6 +130,13 @@ func (s *svc) Finish(a jrpc2.Assigner, st jrpc2.ServerStatus) {
 		flag += "closed"
 	}
 	e := event{kind: "finish", k: s.id, flag: flag, sameAs: a == s.asg}
+	s.w.mu.Lock()
+	for _, c := range s.w.chans {
+		if c.RecvInProgress() {
+			e.inRecv++
+		}
+	}
+	s.w.mu.Unlock()
 	if st.Err != nil {
 		e.err = st.Err.Error()
 	}
@@ -183,6 +193,7 @@ type lworld struct {
 	step   int
 	gates  map[int]chan struct{}
 	drain  chan struct{}
+	chans  []*sim.Chan // server sides of the in-memory connections
 }
 
 func (w *lworld) log(e event) {
@@ -358,7 +369,7 @@ func run(t *testing.T, sc Scenario) engine.Verdict {
 				switch {
 				case err == nil:
 					e.flag = "nil"
-				case err == errOther, errors.Is(err, os.ErrDeadlineExceeded):
+				case err == errOther, errors.Is(err, os.ErrDeadlineExceeded), err == io.EOF, err == errWrapEOF:
 					e.flag = "other"
 				case err == context.Canceled:
 					e.flag = "ctxerr"
@@ -418,6 +429,9 @@ func run(t *testing.T, sc Scenario) engine.Verdict {
 							c.faultAt = st.RecvFailAt
 						}
 						c.srvSide = sim.Wrap(fmt.Sprintf("conn%d", st.K), &closeOnce{Channel: spipe}, 0, faults)
+						w.mu.Lock()
+						w.chans = append(w.chans, c.srvSide)
+						w.mu.Unlock()
 					}
 					c.peer = cpipe
 					c.sendQ = make(chan []byte, 64)
@@ -533,11 +547,17 @@ func run(t *testing.T, sc Scenario) engine.Verdict {
 					case "timeout":
 						// a failure like any other, even if it calls itself a timeout
 						err = errTimeout
+					case "eof":
+						// an accepter that hands out a finite list of connections and then
+						// reports the end of its input: not a closed-listener error
+						err = io.EOF
+					case "wrapeof":
+						err = errWrapEOF
 					default:
 						err = errOther
 					}
 					flag := st.Err
-					if flag == "timeout" {
+					if flag == "timeout" || flag == "eof" || flag == "wrapeof" {
 						flag = "other"
 					}
 					w.log(event{kind: "acceptfail", flag: flag})
@@ -599,6 +619,7 @@ func run(t *testing.T, sc Scenario) engine.Verdict {
 	nAccepted, nNew := 0, 0
 	loopRet := -1
 	var loopFlag, loopErr string
+	nServers, nFinished := 0, 0
 	cancelSeq, failSeq := -1, -1
 	failKind := ""
 	finishes := map[int][]event{}
@@ -615,8 +636,18 @@ func run(t *testing.T, sc Scenario) engine.Verdict {
 			nNew++
 		case "assigner":
 			assignOK[e.k] = e.flag == "true"
+			if e.flag == "true" {
+				nServers++
+			}
 		case "finish":
 			finishes[e.k] = append(finishes[e.k], e)
+			nFinished++
+			// Only a server reads from its connection, one Recv at a time: more
+			// connections being read than servers not yet finished means that a
+			// finished server is still reading - it has not fully exited.
+			if e.inRecv > nServers-nFinished {
+				return fail("finish-before-exit", "Finish of service %d ran while %d connections were still being read by their servers, but only %d servers had not been finished: a server that was reported finished is still inside Recv", e.k, e.inRecv, nServers-nFinished)
+			}
 		case "exit":
 			lastExit[e.k] = e.seq
 		case "loopret":
@@ -943,7 +974,7 @@ func genScenarioMode(t *rapid.T, netMode bool) Scenario {
 			st = Step{Op: "cancel", D: rapid.SampledFrom([]int{0, 0, 0, 1, 40, 700, 3000, 6000, 12000}).Draw(t, "canceldelay")}
 		case roll < 97 && !ended:
 			ended = true
-			st = Step{Op: "acceptfail", Err: rapid.SampledFrom([]string{"netclosed", "chanclosed", "other", "other", "timeout"}).Draw(t, "errkind")}
+			st = Step{Op: "acceptfail", Err: rapid.SampledFrom([]string{"netclosed", "chanclosed", "other", "other", "timeout", "eof", "wrapeof"}).Draw(t, "errkind")}
 		case !pendingConnect:
 			nconn++
 			st = Step{Op: "connect", K: nconn}
